@@ -376,13 +376,14 @@ def main(tier):
         base_cfg = open(os.path.join(VERIF, "spec", "P2Hex_Gen.cfg" if quick else "P2Hex_GenFull.cfg")).read()
         fmts = re.search(r"Fmts = \{([^}]*)\}", base_cfg).group(1).replace(" ", "").split(",")
         # TLC computes initial states with one thread: one TLC run per group of formats, run side by side
-        groups = [fmts] if quick else [[f] for f in fmts]
+        big = [f for f in fmts if f in ('"MOTO"', '"INTEL"')]
+        groups = ([[f] for f in big] + [[f for f in fmts if f not in big]]) if quick else [[f] for f in fmts]
 
         def gen(group):
             cfg = os.path.join(scratch(), "P2Hex_Gen_%s.cfg" % "_".join(x.strip('"') for x in group))
             with open(cfg, "w") as f:
                 f.write(re.sub(r"Fmts = \{[^}]*\}", "Fmts = {%s}" % ", ".join(group), base_cfg))
-            return tlc.must(tlc.run("P2Hex_Gen", cfg, workers=workers if quick else 2, timeout=3000, mem="6g",
+            return tlc.must(tlc.run("P2Hex_Gen", cfg, workers=2, timeout=3000, mem="6g",
                                     tags=("TR",)), "P2Hex_Gen %s" % group)
         gens = pmap(gen, groups, workers=4)
     g = tlc.TLCResult()
